@@ -796,6 +796,9 @@ var bigIntType = reflect.TypeFor[*big.Int]()
 
 // Decode a packet into its corresponding message.
 func decode(packet []byte) (interface{}, error) {
+	if len(packet) == 0 {
+		return nil, errShortRead
+	}
 	var msg interface{}
 	switch packet[0] {
 	case msgDisconnect:
@@ -815,6 +818,9 @@ func decode(packet []byte) (interface{}, error) {
 	case msgUserAuthRequest:
 		msg = new(userAuthRequestMsg)
 	case msgUserAuthSuccess:
+		if len(packet) > 1 {
+			return nil, parseError(msgUserAuthSuccess)
+		}
 		return new(userAuthSuccessMsg), nil
 	case msgUserAuthFailure:
 		msg = new(userAuthFailureMsg)
